@@ -347,9 +347,10 @@ def _do_agents(rec: dict, unit: dict):
     rng: Rng = unit["rng"]
     raises: List[dict] = []
     if unit["family"] == "sweep":
-        r = ag.sweep(unit["agent"], rng, unit["thorough"], unit["n_cfg"], unit["n_pairs"])
+        r = ag.sweep(unit["agent"], rng, unit["thorough"], unit["n_cfg"], unit["n_pairs"], tuple(unit.get("shard", (0, 1))))
         raises = r["raises"]
-        rec["notes"] += r["notes"][:4]
+        _count(rec, f"agents:sweep:{unit['agent']}:configurations whose all-success run does not reach SUCCEEDED (scan attempts exhausted / stage failed)",
+               len(r["notes"]))
         for k, v in r["hist"].items():
             _count(rec, "agents:inject:" + k, v)
         _count(rec, f"agents:sweep:{unit['agent']}:cases", r["cases"])
@@ -451,11 +452,12 @@ def _phase1(ctx: Ctx, rng: Rng) -> List[dict]:
     r_env = rng.fork("env")
     for name in names:
         heavy = 30 if name.startswith("uc7") else 6
-        for v in range(-1, ctx.scale(2, 3)):
+        slow = name.startswith("nmap_")       # a scripted agent scans a whole subnet at every step (seconds per step): kept short
+        for v in range(-1, 1 if slow else ctx.scale(2, 3)):
             variant = "shipped-map" if v < 0 else f"generated-map-{v}"
             units.append({"kind": "case", "label": name, "scenario": name, "variant": variant, "rng": r_env.fork(name + variant),
-                          "aug": None if v < 0 else ctx.scale(60, 150), "max_len": r_env.choice([7, 19, 33]), "episodes": ctx.scale(3, 4),
-                          "weight": heavy})
+                          "aug": None if v < 0 else ctx.scale(60, 150), "max_len": 7 if slow else r_env.choice([7, 19, 33]),
+                          "episodes": 2 if slow else ctx.scale(3, 4), "weight": 40 if slow else heavy})
     from harness.gen import scenario as gscen
     r_gen = rng.fork("gen-scenarios")
     for k in range(ctx.scale(4, 18)):
@@ -491,10 +493,12 @@ def _phase1(ctx: Ctx, rng: Rng) -> List[dict]:
             units.append({"kind": "rewards", "label": name, "scenario": name, "rng": rng.fork("rew" + name), "n": ctx.scale(6, 30),
                           "episodes": 2, "steps": ctx.scale(12, 30), "weight": 6})
     r_ag = rng.fork("agents")
-    units.append({"kind": "agents", "label": "sweep-tap1", "family": "sweep", "agent": "tap1", "rng": r_ag.fork("s1"), "thorough": ctx.thorough,
-                  "n_cfg": 6, "n_pairs": 12, "weight": 40 if ctx.thorough else 8})
-    units.append({"kind": "agents", "label": "sweep-tap3", "family": "sweep", "agent": "tap3", "rng": r_ag.fork("s3"), "thorough": ctx.thorough,
-                  "n_cfg": 6, "n_pairs": 12, "weight": 20 if ctx.thorough else 4})
+    shards = ctx.scale(1, 4)      # the thorough sweep (256 / 48 configurations) is spread over several units
+    for kind, n_cfg in (("tap1", 6), ("tap3", 6)):
+        for i in range(shards):
+            units.append({"kind": "agents", "label": f"sweep-{kind}" + (f"-{i}" if shards > 1 else ""), "family": "sweep", "agent": kind,
+                          "rng": r_ag.fork("s" + kind), "thorough": ctx.thorough, "n_cfg": n_cfg, "n_pairs": 12, "shard": (i, shards),
+                          "weight": (40 if kind == "tap1" else 15) if ctx.thorough else 8})
     n = ctx.scale(150, 1500)
     units.append({"kind": "agents", "label": "c19-families", "family": "c19", "rng": r_ag.fork("c19"),
                   "kinds": [("periodic", n), ("prob", n), ("rand", n // 3), ("tap1", n), ("tap3", n)], "weight": 10 if ctx.thorough else 3})
@@ -548,10 +552,10 @@ def _phase2(ctx: Ctx, rng: Rng, probes: List[Tuple[dict, dict]]) -> List[dict]:
         big = "uc7" in unit["label"]
         if ctx.thorough:
             if unit["label"] in GRID:       # every action of the map in every bucket, plus pairs
-                items = dist.plan(cfg, ex["buckets"], r, True, n_sample=0, n_pairs=12)
+                items = dist.plan(cfg, ex["buckets"], r, True, n_sample=0, n_pairs=12, cap=280 if big else 420)
             else:                           # the other scenarios: relevant action x bucket cells (a seeded sample of 24), a few others, pairs
                 rel = set(ex["relevant"])
-                cells = [it for it in dist.plan(cfg, ex["buckets"], r, True, 0, 0) if it["dist"][0][1] in rel]
+                cells = [it for it in dist.plan(cfg, ex["buckets"], r, True, 0, 0, cap=10 ** 6) if it["dist"][0][1] in rel]
                 items = r.shuffle(cells)[:24]
                 items += [it for it in dist.plan(cfg, ex["buckets"], r.fork("s"), False, 4, 3, cap=0)]
         else:
